@@ -366,6 +366,8 @@ func join(a, b context, node parse.Node, nodeName string) context {
 // element or attr containing bName and bNames.
 func joinNames(aName, bName string, aNames, bNames []string) []string {
 	var ret []string
+	// Keep the names accumulated so far: a's context is the one that is returned.
+	ret = append(ret, aNames...)
 	if aName != bName {
 		ret = append(ret, aName, bName)
 	}
